@@ -117,6 +117,16 @@ def check(ctx):
                 sh_ = [0] + list(1 + np.random.default_rng(ctx.seed + 11).permutation(len(rots_) - 1))
                 listings += [("explicit-rotation-major", {"rotations": rots_[rm_], "translations": trans_[rm_]}, None),
                              ("explicit-shuffled", {"rotations": rots_[sh_], "translations": trans_[sh_]}, None)]
+            # a proper subgroup handed over by the caller (proper rotations only, or the pure translations only): the admissible
+            # space is the one of THAT group, which is larger
+            subgroup_idx = {}
+            if order <= 3 and (rots_[0] == np.eye(3, dtype=int)).all() and np.abs(trans_[0]).max() < 1e-9:
+                prop_ = [i_ for i_ in range(len(rots_)) if round(np.linalg.det(rots_[i_])) == 1]
+                pure_ = [i_ for i_ in range(len(rots_)) if (rots_[i_] == np.eye(3, dtype=int)).all()]
+                for nm_, idx_ in (("explicit-proper-subgroup", prop_), ("explicit-translations-only", pure_)):
+                    if 0 < len(idx_) < len(rots_):
+                        listings.append((nm_, {"rotations": rots_[idx_], "translations": trans_[idx_]}, None))
+                        subgroup_idx[nm_] = idx_
             if order == 4 and ctx.quick:
                 listings = listings[:2]          # no cutoff and one shell boundary (the thorough tier runs them all)
             for lname, sgops, cut in listings:
@@ -128,7 +138,7 @@ def check(ctx):
                     continue
                 b = o.basis_set[order]
                 F = np.asarray(b.compression_matrix @ b.basis_set)
-                Q = projector_onto_admissible(N, order, G, near=near)
+                Q = projector_onto_admissible(N, order, [G[i_] for i_ in subgroup_idx[lname]] if lname in subgroup_idx else G, near=near)
                 ctx.case({"cell": sc["name"], "order": order, "cutoff": cut, "operations": lname, "ref_dim": int(Q.shape[1]), "impl_dim": int(F.shape[1])}, nontrivial=Q.shape[1] >= 1)
                 ctx.count(f"reference-order{order}")
                 rep = {"cell": sc["name"], "lattice": sc["lattice"].tolist(), "positions": sc["positions"].tolist(), "numbers": [int(x) for x in sc["numbers"]],
